@@ -30,7 +30,9 @@ CLAIMED = {
               "no match when none exists; several patterns match iff one does; the oracle matcher decides the denotation. The model "
               "(compile -> regex items + emitted regex text, Go regexp class parser, leftmost-first priorities) is tied to pattern.go by "
               "comparing the emitted regex source (hook VerifCompile) and Match's answer on all patterns <=3 symbols x subjects <=2 symbols x 4 "
-              "modes (quick; thorough <=4 x <=3) over the property's alphabets plus random longer ones. Not proved: that the pattern-to-items "
+              "modes (quick; thorough <=4 x <=3) over the property's alphabets plus random longer ones, structured bracket expressions (collating symbols, "
+              "equivalence classes, named, negated and unknown class names) and lists of 2-5 patterns with empty patterns at every place; a bracket expression "
+              "holding [:^name:] is proved rejected, [[.x.]] proved to be the class of x. Not proved: that the pattern-to-items "
               "parser agrees with POSIX bracket-expression syntax (it is the shared definition of the pattern AST); Go's regexp itself is modelled."),
         note=BASE_NOTE + "Modelled, not verified: Go regexp (syntax of the emitted subset and leftmost-first semantics), utf8 decoding. "
              "Collating symbols and equivalence classes are modelled (one character: itself; otherwise rejected). Outside the modelled subset (skipped): brackets that Go closes elsewhere than compile.",
@@ -59,7 +61,7 @@ text=("Model: tokenizer, parser for arith.go.y's productions, the rule-action ev
               "unquoted or, in double quotes, one field joined by the first IFS character; ${p%w} ${p%%w} ${p#w} ${p##w} on a non-null parameter expand w in Pattern mode "
               "and return the value without the shortest/longest suffix/prefix that the compiled pattern matches as a whole (C12's denotation), the whole value when none does. "
               "Not proved (oracle + correspondence only): the table and removal operators applied to $@/$* themselves. Correspondence: full product operators x states x parameter kinds "
-              "x quoting x operator words x nounset x IFS. Known finding F18 (\"$@\" with no parameters) is reported as KNOWN-FINDING."),
+              "x quoting x operator words x nounset x IFS. \"$@\" without positional parameters is proved to give no field (F18, repaired), and so is a word of $@ only under mode Quote (X77, repaired)."),
         note=BASE_NOTE + "Modelled, not verified: os/user lookup (oracle table probed by the harness), pattern.Match through the C12 model.",
         technique="Coq case-analysis proof of the POSIX table on the expandParam model + differential correspondence + table oracle",
         design="5 C13"),
@@ -100,12 +102,16 @@ text=("Model of Glob (component loop, literal fast path, directory scan with the
         design="5 C01"),
     "C04": dict(
         text=("Proved: the line/column bookkeeping of read() makes the cursor the character position of the consumed prefix (columns count characters), "
-              "unread() undoes exactly one read(). NOT proved: the offsets at the ~40 mark() sites and the derived Pos()/End() methods; decided on every "
+              "unread() undoes exactly one read(); the End()/Pos() methods of the word parts (Lit, Quote, ParamExp, CmdSubst, ArithExp, Word; Ast/Ends.v, transcribed and "
+              "recomputed by the extracted model from the positions the parser stored, on every run): when the positions stored in a part are those of text written "
+              "contiguously (any nesting of $name, ${name}, ${#name}, ${name op word}, the three quotings, literals with newlines), End() is the position following that "
+              "text, Pos() the position where it begins, Pos <= End; a literal ends where the reading cursor stands after its characters (UTF-8 decode-after-encode "
+              "round trip proved, Base/Utf8.v). NOT proved: the offsets at the ~40 mark() sites and the Pos()/End() methods of the command nodes; decided on every "
               "run by an intrinsic checker on (source, AST): the text at every stored position spells the documented token, Pos<=End, non-zero End, "
               "children inside parents, siblings increasing, over generated programs in plain and rich layouts with multi-byte names. Known finding "
-              "F28 (here-document extent vs enclosing End()) is reported as KNOWN-FINDING."),
+              "F28 (here-document extent vs enclosing End()) and F66 (End() past the line when a line continuation directly precedes a closing quote or brace) are reported as KNOWN-FINDING."),
         note=BASE_NOTE + "Sources without aliases, as the property states; documented exclusions: line continuations, Comment.End.",
-        technique="Coq cursor model theorems + intrinsic position checker on the implementation's ASTs",
+        technique="Coq theorems on the cursor model and on the transcribed End()/Pos() methods of word parts (recomputed on the implementation's ASTs) + intrinsic position checker",
         design="5 C04"),
     "C06": dict(
         text=("Proved on the protocol model (lexer = deterministic emitting program, parser = deterministic automaton, unbuffered channel, cancel observed "
@@ -120,7 +126,9 @@ text=("Model of Glob (component loop, literal fast path, directory scan with the
         design="5 C06"),
     "C07": dict(
         text=("Proved for every program over the ReadRune/UnreadRune interface (the lexer is one), every source and state: text beyond the inspected "
-              "prefix influences neither result, outputs nor final reader position (prefix locality); the reader never stands beyond what was inspected. "
+              "prefix influences neither result, outputs nor final reader position (prefix locality); the reader never stands beyond what was inspected; "
+              "the second of two successive calls on one reader gives what the same program gives on the text that begins where the first call stopped, "
+              "same outputs, and stops at the corresponding place (successive_calls; sequencing lemma run_bind). "
               "NOT proved: that the lexer stops exactly after the terminating newline of one complete command; decided on every run on concatenated "
               "streams of 2-6 generated command lines through a custom RuneScanner and a strings.Reader (offset after each call, result equal to the "
               "separate parse, blank lines empty) and by re-parsing each command with arbitrary text substituted beyond its inspected prefix."),
@@ -143,7 +151,9 @@ text=("Model of Glob (component loop, literal fast path, directory scan with the
         design="5 C08"),
     "C10": dict(
         text=("Proved: the error slot's merge rule (translated concept: rank 0 read error, 1+position syntax errors, keep the minimum) keeps the read "
-              "error whatever is reported before or after it, in any order; the reader interpreter notices every failing read. Tied to the code by "
+              "error whatever is reported before or after it, in any order; the reader interpreter notices every failing read; for every program over the reader "
+              "interface and every source failing from position k on, the program has been told of the failure once it has inspected position k, and a program that "
+              "was never told has run exactly as on the whole input (same result, outputs and final reader state). Tied to the code by "
               "the complete set of single-fault positions of generated programs and short strings through a fault-injecting RuneScanner that records "
               "whether the failing read was reached."),
         note=BASE_NOTE + "io.Reader sources go through bufio (forwards the error); only the RuneScanner kind carries the injector.",
@@ -181,7 +191,8 @@ text=("Model of Glob (component loop, literal fast path, directory scan with the
     "C18": dict(
         text=("Proved: a writer failing before the whole output is accepted is reported by the buffered writer for every write sequence and buffering "
               "schedule; the temporarily hidden separators are all restored by the deferred undos in any nesting, also when a node is trimmed twice. "
-              "NOT proved: idempotence of the layout; decided on every run: print(parse(print t)) = print t, two prints equal, deep dump of the tree "
+              "For words of literal quotings the printed form, scanned and printed again, is proved to be the same text (Lex/Reprint.v; notation model compared with "
+              "printer.Fprint on every run). NOT proved: idempotence of the layout; decided on every run: print(parse(print t)) = print t, two prints equal, deep dump of the tree "
               "unchanged, writers failing after every k, over generated programs x 16 pairwise-covering Configs (every 16th program: all 256)."),
         note=BASE_NOTE + "bufio is abstracted to an arbitrary flush schedule.",
         technique="Coq theorems on the buffered-writer and trim/undo models + print/parse/print fix-point check under all styles",
@@ -221,7 +232,7 @@ text=("Model of Glob (component loop, literal fast path, directory scan with the
               "comments must be the predicted ones. NOT proved (decided on every run by metamorphic pairs): that tokens are scanned alike under every "
               "layout, optional blanks around operators, newline for ';' (token level: the grammar relation of C02 gives both the same skeleton) -- each "
               "program structure is rendered under independent layouts (plain/rich text generator; grammar derivations with independent newline-token, "
-              "separator and blank/comment/continuation streams) and must parse to the same skeleton with exactly its own comments. Known finding F45."),
+              "separator and blank/comment/continuation streams) and must parse to the same skeleton with exactly its own comments; comments inside substitutions in fifteen enclosing contexts with the exact list returned."),
         note=BASE_NOTE + "Modelled, not verified: the rest of scanRawToken (word and operator scanning).",
         technique="Coq proof on a layout-scanner model + exhaustive correspondence over the layout alphabet + metamorphic layout pairs",
         design="5 C09"),
@@ -232,10 +243,13 @@ text=("Model of Glob (component loop, literal fast path, directory scan with the
               "expansions printed in the middle of a body): if it runs without fault and leaves nothing open, each here-document is read back exactly "
               "once, by the lexer that saw its announcement, at the first newline after it, in announcement order. Tie on every run: the operations the "
               "real printer performed (hook printer.VerifHook) are replayed on the extracted model, the events must be the model's, no fault, nothing "
-              "left open, reader accepts (here-document corpus + generated programs x 3 Configs). Token level: C02's completeness. NOT modelled / not "
-              "proved: word quoting, separators and layout under the 256 styles; decided on every run by the round trip itself: generated programs + "
+              "left open, reader accepts (here-document corpus + generated programs x 3 Configs). Token level: C02's completeness. Words of literal quotings "
+              "(Lex/Reprint.v): proved for every text the word scanner accepts (plain characters, the three quotings, escapes, line continuations, any Unicode scalar "
+              "values) that the parts it returns, written in the printer's notation, are scanned back to exactly the same parts and rest; the notation model is compared "
+              "with printer.Fprint on every run (handler rword: all texts of <=4 symbols and random longer ones). NOT modelled / not "
+              "proved: quoting of words with expansions, separators and layout under the 256 styles; decided on every run by the round trip itself: generated programs + "
               "corpora x 16 pairwise-covering Configs (every 16th and the corpus: all 256): the printed text must be accepted with the same skeleton."),
-        note=BASE_NOTE + "Modelled, not verified: the printer apart from its here-document bookkeeping.",
+        note=BASE_NOTE + "Modelled, not verified: the printer apart from its here-document bookkeeping and its notation for words of literal quotings.",
         technique="Coq invariant proof on the printer's here-document bookkeeping + operation-replay correspondence + print/parse round trip under all styles",
         design="5 C05"),
     "C19": dict(
